@@ -12,7 +12,7 @@ from .C10 import TLS, ALLOWED_WRITERS
 
 
 def _hist(h):
-    env = dict(os.environ, PYTHONHASHSEED="0", PYTHONPATH=ROOT)
+    env = dict(os.environ, PYTHONHASHSEED="0", PYTHONPATH=(os.environ.get("EINX_VERIF_REPO", "") + os.pathsep + ROOT).lstrip(os.pathsep))
     r = subprocess.run([sys.executable, "-m", "vf.props._c06child", json.dumps(h)], capture_output=True, text=True, env=env, cwd=ROOT, timeout=600)
     rows = [json.loads(l) for l in r.stdout.splitlines() if l.startswith("{")]
     return h, rows, (r.stderr[-400:] if len(rows) != len(h) else "")
@@ -26,7 +26,7 @@ def run(tier, seed):
     chk.add_rule("C06.S.shared", ok, sites, failing, detail="no call-time writes to module-level state other than the registry (under its lock), functools caches and thread-locals")
     ok, sites, failing = frame.rule_tls(TLS)
     chk.add_rule("C06.S.tls", ok, sites, failing)
-    env = dict(os.environ, PYTHONPATH=ROOT)
+    env = dict(os.environ, PYTHONPATH=(os.environ.get("EINX_VERIF_REPO", "") + os.pathsep + ROOT).lstrip(os.pathsep))
     n = int(subprocess.run([sys.executable, "-m", "vf.props._c06child", '"count"'], capture_output=True, text=True, env=env, cwd=ROOT).stdout.strip() or 0)
     if n == 0:
         chk.checker_errors.append("C06 child produced no call pool")
